@@ -15,6 +15,17 @@ from lib import facts as F  # noqa: E402
 from lib.ctx import Ctx  # noqa: E402
 
 
+def loose_key(key):
+    """a construct key without the function path and without the parts that depend on how the code is laid out:
+    `ast_to_source::expr_to_source[Call]#func:unguarded=A,B` -> `[Call]#func`, `..[String]#replace0` -> `[String]#replace`"""
+    import re as _re
+    k = key[key.index("["):] if "[" in key else key
+    k = _re.sub(r":unguarded=.*$", "", k)
+    k = _re.sub(r"#(\D+)\d+$", r"#\1", k)
+    k = _re.sub(r"->expr_to_source#?$", "->expr_to_source", k)
+    return k
+
+
 def load_known():
     p = os.path.join(VERIF, "known_findings.json")
     with open(p) as f:
@@ -91,6 +102,25 @@ def main(argv):
             else:
                 viol.append(inst)
     seen_keys = {(i["rule"], i["key"]) for i, _ in kf}
+    # A listed finding whose construct no longer exists on this tree (no instance at all carries its key) may have MOVED: the same
+    # defect, for the same AST construct and the same failing input, now lives in a renamed / merged / extracted function. Such a
+    # violation is matched to the vanished finding by its key without the function path (`[String]#replace`, `[Call]#func`), one for
+    # one; a violation beyond the number of vanished findings of that shape is reported as new.
+    all_keys = {(i["rule"], i["key"]) for i in ctx.instances}
+    vanished = {}
+    for kk, k in kset.items():
+        if kk not in all_keys and kk[0] in ctx.rule_doc and "[" in kk[1]:
+            vanished.setdefault((kk[0], loose_key(kk[1])), []).append(k)
+    still = []
+    for inst in viol:
+        lk = (inst["rule"], loose_key(inst["key"])) if "[" in inst["key"] else None
+        if lk is not None and vanished.get(lk):
+            k = vanished[lk].pop(0)
+            kf.append((dict(inst, key="%s (moved: listed as %s)" % (inst["key"], k["key"])), k))
+            seen_keys.add((k["rule"], k["key"]))
+        else:
+            still.append(inst)
+    viol = still
     stale = [k for kk, k in kset.items() if kk not in seen_keys and kk[0] in ctx.rule_doc]  # only rules evaluated in this tier
 
     rdir = os.path.join(out_root, "reports", pid)
